@@ -1,8 +1,37 @@
 import NflowsModel.Core.Driver
-/-! Core/Ops/C15 — driver operations used by the C15 correspondence (executable model, Mathlib-free). -/
+import NflowsModel.Core.Inventory
+/-! Core/Ops/C15 — driver operations used by the C15 correspondence (executable model, Mathlib-free).
+
+`c15_inv`: one extracted inventory with the value ids of two instances.
+  request  `i` = flat entries `[kind, ctorDetermined, …]` (kind 0 param, 1 persistent buffer, 2 non-persistent buffer,
+           3 plain attribute, 4 alias of a persisted tensor — `Inventory.decodeInv`),
+           `used` = 0/1 per entry, `saved` / `fresh` = value ids per entry (equal id ⇔ bitwise equal value),
+           `hist` = flat `[index, value id, …]` updates applied to `saved` before saving
+  response `i` = `[reloadSafeU inv used, reloadSafe inv]` followed by `afterLoad inv (applyHist saved hist) fresh`,
+           `f` = `[offendingEntries inv used]`
+The definitions executed are the ones `Properties.C15` is about. -/
 namespace NF
+open Thin Thin.Inventory
+
+def intsOf (j : Lean.Json) (k : String) : List Int :=
+  ((jArr ((j.getObjVal? k).toOption.getD Lean.Json.null)).map jInt).toList
+
+def pairsOf : List Int → List (Nat × Int)
+  | a :: b :: rest => (a.toNat, b) :: pairsOf rest
+  | _ => []
 
 /-- handler for the ops of this property; `none` = not one of mine -/
-def handleC15 (_r : Req) : Option Resp := none
+def handleC15 (r : Req) : Option Resp :=
+  match r.op with
+  | "c15_inv" =>
+    let inv := decodeInv r.ints.toList
+    let used := (intsOf r.raw "used").map (fun x => x != 0)
+    let saved := intsOf r.raw "saved"
+    let fresh := intsOf r.raw "fresh"
+    let hist := pairsOf (intsOf r.raw "hist")
+    let b (x : Bool) : Int := if x then 1 else 0
+    some { ints := b (reloadSafeU inv used) :: b (reloadSafe inv) :: afterLoad inv (applyHist saved hist) fresh,
+           fs := [offendingEntries inv used] }
+  | _ => none
 
 end NF
